@@ -11,6 +11,7 @@ import (
 	"sort"
 	"strings"
 	"sync"
+	"sync/atomic"
 	"testing"
 	"time"
 
@@ -46,6 +47,11 @@ type C16Case struct {
 	Busy []int `json:"busy,omitempty"`
 	// Logs: the devices run with their logging switched on (the application's default)
 	Logs bool `json:"logs,omitempty"`
+	// LongStay (with Server "empty" / "foreign"): device 0 stays connected for 3 s - past the moment its LED goroutine has
+	// given up looking for a controller and returned - while MIDI input keeps arriving; before its stream ends the MIDI
+	// input must still be flowing (a connected device that stops reading its input cuts every other device off and blocks
+	// the attaching of new ones)
+	LongStay bool `json:"long_stay,omitempty"`
 }
 
 var raceLogOffsets = map[string]int64{}
@@ -123,7 +129,7 @@ func flatten(ms [][]byte) []string {
 }
 
 func (c *C16Case) busyFor(i int) int {
-	if c.NoServer || c.SlowOutUs > 0 || i >= len(c.Busy) {
+	if c.NoServer || c.SlowOutUs > 0 || c.LongStay || i >= len(c.Busy) {
 		return 0
 	}
 	return c.Busy[i]
@@ -171,6 +177,7 @@ func checkC16(c C16Case) (nontrivial bool, v *Violation) {
 	curRun.Inflight(c)
 	defer curRun.InflightDone()
 
+	var fed int64 // MIDI-input messages taken over by the fan-out so far
 	midiSrc := make(chan midi.Event, 8)
 	fan := utils.NewDynamicFanOut[midi.Event](midiSrc)
 	stopMidi := make(chan struct{})
@@ -184,6 +191,7 @@ func checkC16(c C16Case) (nontrivial bool, v *Violation) {
 			}
 			select {
 			case midiSrc <- midi.Event(c.Midi[i%len(c.Midi)]):
+				atomic.AddInt64(&fed, 1)
 			case <-stopMidi:
 				return
 			}
@@ -244,6 +252,9 @@ func checkC16(c C16Case) (nontrivial bool, v *Violation) {
 					phase = "no-server-long"
 				}
 			}
+			if c.LongStay && i == 0 && (c.Server == "empty" || c.Server == "foreign") && !c.NoServer {
+				phase = "led-gave-up"
+			}
 			switch phase {
 			case "no-server-early":
 				time.Sleep(time.Duration(c.Delay[i]%300) * time.Millisecond)
@@ -251,6 +262,8 @@ func checkC16(c C16Case) (nontrivial bool, v *Violation) {
 				time.Sleep(50 * time.Millisecond)
 			case "discovery-empty", "discovery-foreign", "discovery-mute":
 				time.Sleep(time.Duration(300+c.Delay[i]%900) * time.Millisecond) // connected (first attempt after 250 ms), asking for its controller
+			case "led-gave-up":
+				time.Sleep(3 * time.Second) // first attempt after 250 ms, 2 s of looking for the controller, then the LED goroutine returns
 			case "before-connect":
 				time.Sleep(time.Duration(c.Delay[i]%200) * time.Millisecond)
 			case "during-discovery":
@@ -286,6 +299,18 @@ func checkC16(c C16Case) (nontrivial bool, v *Violation) {
 			}
 			if phase == "no-server-long" {
 				time.Sleep(1600 * time.Millisecond)
+			}
+			if phase == "led-gave-up" && len(c.Midi) > 0 {
+				// progress-based: the input counts as stalled only if not a single message gets through for 6 s
+				before := atomic.LoadInt64(&fed)
+				for deadline := time.Now().Add(6 * time.Second); atomic.LoadInt64(&fed) == before && time.Now().Before(deadline); {
+					time.Sleep(10 * time.Millisecond)
+				}
+				if atomic.LoadInt64(&fed) == before {
+					res[i].problem = violation("C16", "midi-input-stalled", "led-gave-up", "device %d is connected (its LED goroutine found no controller on the server and has returned), MIDI input keeps arriving, but for 6 s not one message was taken over by the fan-out (%d so far): a connected device has stopped reading its MIDI input, every other device is cut off and attaching a device blocks\n%s", i, before, firstLines(allStacks(), 80))
+					return
+				}
+				classify("MIDI input still flowing 3 s after the LED goroutine gave up")
 			}
 			if busy := c.busyFor(i); busy > 0 {
 				pre := drain(ld.out)
@@ -498,6 +523,7 @@ func genC16(t *rapid.T) C16Case {
 	c.NoServer = rapid.IntRange(0, 6).Draw(t, "noServer") == 0
 	if !c.NoServer && rapid.IntRange(0, 5).Draw(t, "serverState") == 0 {
 		c.Server = rapid.SampledFrom([]string{"empty", "foreign", "mute"}).Draw(t, "server")
+		c.LongStay = c.Server != "mute" && rapid.Bool().Draw(t, "longStay")
 	}
 	for i := rapid.IntRange(0, 12).Draw(t, "midiMsgs"); i > 0; i-- {
 		if rapid.IntRange(0, 2).Draw(t, "otherMessage") == 0 {
